@@ -28,6 +28,8 @@ ASSUMPTIONS = ['float rounding, nan, inf and -0.0 are not modelled: inputs are d
                'results are compared with NumPy up to leading axes of length 1 (reduce_ndim drops them by design) and up to bool/float dtype (True = 1.0)',
                'theorems are about the source with pending_fixes/C09_1..C09_7 applied (model flag lg = false); the kernels of the unrepaired source are kept (lg = true, C09_LEGACY=1) and their defects are stated as C09_legacy_* theorems',
                'refinement theorems cover + - * fully and / where NumPy returns; the statements refuted in Props.v (0/0, in-place resize, unchecked shapes/indices, read-only arrays) are known findings',
+               'copy_like is generated only between objects of the same kind and shape (the method compares neither, and does not test read_only); '
+               'in-place operators with a one-row 2-d operand are compared with NumPy after dropping that axis',
                'the history-refinement theorem covers the float-vector fragment (fop); the invariant, frame and rejection theorems cover every modelled operation']
 TRUSTED = ['model coq/C09/Model.v is hand-written from thermosteam/base/sparse.py; tie = correspondence check on every run',
            'dense reference semantics coq/C09/Dense.v is hand-written from NumPy broadcasting/error rules; tie = the same operations run with NumPy on the dense images of the real operands and compared with np_step',
@@ -180,6 +182,9 @@ def wants(op):
     """kinds of store objects an operation can be aimed at"""
     n = op[0]
     if n in ('aget', 'aset'): return ('a',)
+    if n == 'copylike': return ('v', 'a')
+    if n == 'fromflat': return ('v', 'a')
+    if n == 'toflat': return ('v', 'l', 'a', 'b')
     if n in ('get', 'set'): return ('v', 'l')
     if n == 'un' and op[1] == 'invert': return ('l', 'b')
     if n == 'un' and op[1] == 'setro': return ('v', 'a')
@@ -211,12 +216,28 @@ def resolve_op(store, op):
     if i is None: return None
     op = list(op); op[pos] = i
     # operand objects
-    ai = {'bin': 3, 'ibin': 3, 'set': 3, 'aset': 3}.get(n)
+    ai = {'bin': 3, 'ibin': 3, 'set': 3, 'aset': 3, 'copylike': 2}.get(n)
     if ai is not None and op[ai][0] == 'o':
         kinds = op[ai][2] if len(op[ai]) > 2 else ('v', 'l', 'a', 'b')
         j = pick(store, op[ai][1], kinds)
         if j is None: return None
         op[ai] = ['o', j]
+    if n == 'copylike':
+        x = store[i]
+        if op[2][0] == 'view':
+            if kind_of(x) != 'a': op[2] = ['o', i]
+            else: op[2] = ['view', sorted(set(k % len(x.rows) for k in op[2][1]))]
+        if op[2][0] == 'o' and not (len(op) > 3 and isinstance(op[-1], dict) and op[-1].get('raw')):
+            y = store[op[2][1]]
+            same = (kind_of(x) == 'v' and kind_of(y) in ('v', 'l') and y.size == x.size) or \
+                   (kind_of(x) == 'a' and kind_of(y) in ('a', 'b') and len(y.rows) == len(x.rows) and y.vector_size == x.vector_size)
+            if not same: return None          # copy_like compares neither kinds nor shapes: only same-shape sources are generated
+        if isinstance(op[-1], dict): op = op[:-1]
+    if n in ('toflat', 'fromflat'):
+        x = store[i]
+        size = int(x.size) if kind_of(x) in ('v', 'l') else len(x.rows) * int(x.vector_size)
+        if op[2] is not None: op[2] = cyc(op[2], size, 0.0)
+        elif n == 'fromflat': op[2] = [0.0] * size
     if n in ('get', 'set', 'aget', 'aset'):
         x = store[i]
         sz = {'n': int(x.vector_size), 'm': len(x.rows) if hasattr(x, 'rows') else 0}
@@ -229,8 +250,12 @@ def resolve_op(store, op):
                 ax = op[2]
                 if ax[0] == 'row':
                     op[2] = ['row', fit_index(ax[1], sz['m'])]
+                    if n == 'aset' and op[3][0] in ('l2', 'n2'): op[3] = [op[3][0], [cyc(r, sz['n'], 0.0) for r in op[3][1]]]
                 else:
                     mi, ni = fit_index(ax[1], sz['m']), fit_index(ax[2], sz['n'])
+                    if n == 'aset' and op[3][0] in ('l2', 'n2') and mi[0] != 'i' and ni[0] not in ('i', 't'):
+                        nc = index_count(ni, sz['n'])
+                        op[3] = [op[3][0], [cyc(r, nc, 0.0) for r in op[3][1]]]
                     if mi[0] in ('li', 'ni') and ni[0] in ('li', 'ni'):
                         k = min(len(mi[1]), len(ni[1])); mi = [mi[0], mi[1][:k]]; ni = [ni[0], ni[1][:k]]
                     op[2] = ['pair', mi, ni]
@@ -302,6 +327,19 @@ def exec_op(store, op):
     elif n == 'red':
         x = store[op[2]]
         r = getattr(x, op[1])(axis=op[3], keepdims=op[4])
+    elif n == 'copylike':
+        x = store[op[1]]
+        other = store[op[2][1]] if op[2][0] == 'o' else x[[int(k) for k in op[2][1]]]
+        x.copy_like(other); return ['unit'], None
+    elif n == 'toflat':
+        x = store[op[1]]
+        if op[2] is None: r = x.to_flat_array()
+        else:
+            buf = np.array([float(v) for v in op[2]])
+            r = x.to_flat_array(buf)
+            if r is not buf: raise AssertionError('to_flat_array(buffer) did not return the buffer')
+    elif n == 'fromflat':
+        x = store[op[1]]; x.from_flat_array(np.array([float(v) for v in op[2]])); return ['unit'], None
     else:
         raise ValueError(n)
     if kind_of(r):
@@ -407,6 +445,11 @@ def cop(op):
     if n == 'get': return f'(XOp (OGet {cnat(op[1])} {cindex(op[2], op[-1]["n"])}))'
     if n == 'set': return f'(XOp (OSet {cnat(op[1])} {cindex(op[2], op[-1]["n"])} {carg(op[3])}))'
     if n == 'red': return f'(XOp (ORed {RED[op[1]]} {cnat(op[2])} {copt(op[3], cnat)} {cbool(op[4])}))'
+    if n == 'copylike':
+        src = f'(CObj {cnat(op[2][1])})' if op[2][0] == 'o' else f'(CView {clist(op[2][1], cnat)})'
+        return f'(XOp (OCopyLike {cnat(op[1])} {src}))'
+    if n == 'toflat': return f'(XOp (OToFlat {cnat(op[1])} {copt(op[2], qlist)}))'
+    if n == 'fromflat': return f'(XOp (OFromFlat {cnat(op[1])} {qlist(op[2])}))'
     if n == 'aget': return f'(XAGet {cnat(op[1])} {caindex(op[2], op[-1])})'
     if n == 'aset': return f'(XASet {cnat(op[1])} {caindex(op[2], op[-1])} {carg(op[3])})'
     raise ValueError(n)
@@ -548,6 +591,14 @@ def gen_op(rng, n, m, malformed):
     if r < 0.92:
         return ['red', rng.choice(list(RED)), rng.randrange(64), rng.choice([None, None, 0, 1, 1] + ([2] if malformed else [])),
                 rng.random() < 0.4]
+    if r < 0.935:
+        k = rng.random()
+        if k < 0.4:
+            src = ['o', rng.randrange(64)] if rng.random() < 0.7 else ['view', [rng.randrange(8) for _ in range(rng.randint(1, 3))]]
+            return ['copylike', rng.randrange(64), src]
+        if k < 0.8:
+            return ['toflat', rng.randrange(64), rng.choice([None, [float(rng.choice(VALS[1:])) for _ in range(rng.randint(1, 4))]])]
+        return ['fromflat', rng.randrange(64), gvals(rng, rng.randint(1, 6))]
     if r < 0.95:
         return ['aget', rng.randrange(64), gen_aindex(rng, n, m, False)]
     ax, val = gen_aset(rng, n, m, malformed)
@@ -662,9 +713,88 @@ def readonly_sweep():
     cases.append({'objs': [['a', [[1.0, 2.0, 4.0], [0.5, 0.0, -1.0]]], ['v', vals, False], ['l', [T, T, T]], ['a', [[1.0, 2.0, 4.0]]]], 'ops': aops})
     return cases
 
+def shape_sweep(rng):
+    """every operator with operands whose length cannot be broadcast, aimed at all-zero, full and mixed targets:
+    both sides must reject (the test of the shapes must not depend on what is stored)"""
+    T, Fa = True, False
+    cases = []
+    fill = lambda: float(rng.choice(VALS[1:]))
+    for state in ('zero', 'full', 'mixed', 'cancelled'):
+        def vec(n):
+            if state == 'zero': return [0.0] * n
+            if state == 'full' or state == 'cancelled': return [fill() for _ in range(n)]
+            return [fill() if k % 2 == 0 else 0.0 for k in range(n)]
+        for n, bad in ((3, (2, 4)), (2, (3, 5))):
+            objs = [['v', vec(n), False], ['a', [vec(n), vec(n)]]]
+            for b in bad:
+                objs += [['v', [fill() for _ in range(b)], False], ['l', [T] * b], ['a', [[fill() for _ in range(b)]]],
+                         ['a', [[fill() for _ in range(b)], [0.0] * b]]]
+            ops = []
+            if state == 'cancelled':            # entries removed by exact cancellation: x -= x, A -= A
+                ops += [['ibin', 'sub', 0, ['o', 0]], ['ibin', 'sub', 1, ['o', 1]]]
+            for tgt in (0, 1):
+                for k, b in enumerate(bad):
+                    base = 2 + 4 * k
+                    args = [['o', base, ['v']], ['o', base + 1, ['l']], ['o', base + 2, ['a']], ['l', [fill() for _ in range(b)]],
+                            ['n', [fill() for _ in range(b)]], ['bl', [T] * b], ['bn', [T] * b], ['n2', [[fill() for _ in range(b)]]]]
+                    if tgt == 1: args += [['o', base + 3, ['a']], ['n2', [[fill() for _ in range(b)], [fill() for _ in range(b)]]]]
+                    for name in ARITH + CMPS:
+                        for a in args:
+                            if name in ARITH: ops.append(['ibin', name, tgt, a])
+                            ops.append(['bin', name, tgt, a])
+            cases.append({'objs': objs, 'ops': ops})
+    return cases
+
+def helper_sweep(rng):
+    """copy_like from the object itself / from selections of its own rows / from same-shape objects; to_flat_array into
+    buffers holding other values (also after entries were removed); from_flat_array followed by to_flat_array"""
+    T, Fa = True, False
+    g = lambda k: [float(rng.choice(VALS[1:])) for _ in range(k)]
+    cases = []
+    for n, m in ((4, 3), (2, 2), (1, 2)):
+        A = [[gval(rng) for _ in range(n)] for _ in range(m)]
+        for r in A: r[0] = float(rng.choice(VALS[1:]))
+        objs = [['v', [gval(rng, 0.2) for _ in range(n)], False], ['a', A], ['v', gvals(rng, n), False], ['a', [gvals(rng, n) for _ in range(m)]],
+                ['b', [gbools(rng, n) for _ in range(m)]], ['l', gbools(rng, n)]]
+        ops = [['copylike', 0, ['o', 0]], ['un', 'toarray', 0], ['copylike', 1, ['o', 1]], ['un', 'toarray', 1],
+               ['copylike', 1, ['view', list(range(m))]], ['un', 'toarray', 1], ['copylike', 1, ['view', list(range(m - 1))]], ['un', 'toarray', 1]]
+        if m > 2: ops += [['copylike', 1, ['view', [1, 2]]], ['un', 'toarray', 1]]
+        ops += [['toflat', 1, None], ['toflat', 1, g(3)], ['toflat', 0, g(2)], ['toflat', 4, g(2)], ['toflat', 5, g(2)],
+                ['aset', 1, ['pair', ['i', 0], ['i', 0]], ['s', 0.0]], ['toflat', 1, g(3)],
+                ['ibin', 'sub', 1, ['o', 1]], ['toflat', 1, g(4)], ['ibin', 'mul', 0, ['s', 0.0]], ['toflat', 0, g(1)],
+                ['fromflat', 1, g(n * m)], ['toflat', 1, g(2)], ['fromflat', 1, [0.0] * (n * m)], ['toflat', 1, g(2)],
+                ['fromflat', 0, g(n)], ['toflat', 0, None],
+                ['copylike', 0, ['o', 2]], ['copylike', 1, ['o', 3]], ['copylike', 1, ['o', 4]], ['copylike', 0, ['o', 5]],
+                ['un', 'toarray', 0], ['un', 'toarray', 1]]
+        cases.append({'objs': objs, 'ops': ops})
+    return cases
+
+def reduction_sweep(rng):
+    """every reduction x axis x keepdims on arrays whose columns / rows cancel exactly, are all negative with an implicit
+    zero, all positive with an implicit zero, full, or empty; on vectors of the same patterns; on boolean arrays"""
+    a = float(rng.choice([F(1, 2), F(2), F(3, 2), F(1024)])); b = float(rng.choice([F(1), F(1, 1024), F(3)]))
+    arrays = [
+        [[a, -b, b, -a, 0.0, a], [-a, 0.0, 0.0, -b, 0.0, b], [0.0, -a, a, -a, 0.0, a + b]],      # cancelling / negative+implicit 0 / positive+implicit 0 / negative / empty / positive columns
+        [[-a, -b, -a], [b, a, 0.0], [0.0, 0.0, 0.0], [a, -a, 0.0]],                               # rows: negative, positive with a zero, empty, cancelling
+        [[-a, 0.0, b]], [[-b], [0.0], [b]], [[0.0, 0.0], [0.0, 0.0]],
+    ]
+    vectors = [[-a, -b], [-a, 0.0, -b], [a, 0.0, b], [a, -a], [0.0, 0.0], [-b], [0.0]]
+    bools = [[[True, False, True], [True, True, False]], [[False, False]], [[True], [True]]]
+    cases = []
+    reds = [['red', name, 0, axis, keep] for name in RED for axis in (None, 0, 1) for keep in (False, True)]
+    for A in arrays:
+        cases.append({'objs': [['a', A]], 'ops': reds + [['ibin', 'sub', 0, ['o', 0]]] + reds})
+    for v in vectors:
+        cases.append({'objs': [['v', v, False]], 'ops': [r for r in reds if r[3] != 1] + [['red', 'max', 0, 1, False]]})
+    for B in bools:
+        cases.append({'objs': [['b', B]], 'ops': [r for r in reds if r[1] in ('any', 'all')]})
+    cases.append({'objs': [['l', [True, False]], ['l', [False, False]], ['l', [True]]],
+                  'ops': [['red', name, k, axis, keep] for k in (0, 1, 2) for name in RED for axis in (None, 0) for keep in (False, True)]})
+    return cases
+
 def gen_cases(rng, tier):
     nrand = 260 if tier == 'quick' else 5000
-    cases = readonly_sweep() + [gen_history(rng) for _ in range(nrand)]
+    cases = readonly_sweep() + shape_sweep(rng) + helper_sweep(rng) + reduction_sweep(rng) + [gen_history(rng) for _ in range(nrand)]
     cases += small_scope(rng, tier)
     return cases
 
@@ -745,7 +875,9 @@ def np_eval(store, op):
             r = BINF[op[1]](dense_of(store[op[2]]), np_arg(op[3], store))
         elif n == 'ibin':
             x = dense_of(store[op[2]])
-            r = IBINF[op[1]](x, np_arg(op[3], store))
+            a = np_arg(op[3], store)
+            if x.ndim == 1 and np.ndim(a) == 2 and np.shape(a)[0] == 1: a = np.asarray(a)[0]    # reduce_ndim drops the leading axis by design
+            r = IBINF[op[1]](x, a)
             return ['upd', np_obs(r)]
         elif n == 'rbin':
             r = BINF[op[1]](float(op[2]), dense_of(store[op[3]]))
@@ -772,6 +904,16 @@ def np_eval(store, op):
             return ['upd', np_obs(x)]
         elif n == 'red':
             r = getattr(dense_of(store[op[2]]), op[1])(axis=op[3], keepdims=op[4])
+        elif n == 'copylike':
+            x = dense_of(store[op[1]])
+            if op[2][0] == 'o': b = store[op[2][1]].to_array()
+            elif len(op[2][1]) == x.shape[0]: b = x[[int(k) for k in op[2][1]]]
+            else: return ['skip']
+            np.copyto(x, b, casting='unsafe'); return ['upd', np_obs(x)]
+        elif n == 'toflat':
+            return np_value(store[op[1]].to_array().flatten())
+        elif n == 'fromflat':
+            x = dense_of(store[op[1]]); x.flat[:] = np.array([float(v) for v in op[2]]); return ['upd', np_obs(x)]
         else:
             return ['skip']
     except Exception as ex:
@@ -790,6 +932,9 @@ def np_value(r):
 def in_fragment(store, op):
     """operations covered by np_step of coq/C09/Dense.v"""
     n = op[0]
+    if n == 'toflat': return True
+    if n == 'copylike':
+        return kind_of(store[op[1]]) == 'v' and op[2][0] == 'o' and kind_of(store[op[2][1]]) == 'v'
     pos = {'bin': 2, 'ibin': 2, 'rbin': 3, 'un': 2, 'get': 1, 'set': 1, 'red': 2}.get(n)
     if pos is None: return False
     t = kind_of(store[op[pos]])
@@ -866,10 +1011,10 @@ def invariant(store):
 
 def opkind(store, op):
     n = op[0]
-    pos = {'bin': 2, 'ibin': 2, 'rbin': 3, 'un': 2, 'get': 1, 'set': 1, 'red': 2, 'aget': 1, 'aset': 1}[n]
+    pos = {'bin': 2, 'ibin': 2, 'rbin': 3, 'un': 2, 'get': 1, 'set': 1, 'red': 2, 'aget': 1, 'aset': 1, 'copylike': 1, 'toflat': 1, 'fromflat': 1}[n]
     t = kind_of(store[op[pos]])
     name = op[1] if isinstance(op[1], str) else ''
-    ai = {'bin': 3, 'ibin': 3, 'set': 3, 'aset': 3}.get(n)
+    ai = {'bin': 3, 'ibin': 3, 'set': 3, 'aset': 3, 'copylike': 2}.get(n)
     ak = ''
     if ai is not None:
         a = op[ai]
@@ -901,6 +1046,7 @@ def oracle(case):
         tag = f'{n}:{name}:{t}:{ak}'
         ref = np_eval(store, op)
         pre_dense = [x.to_array() for x in store]
+        pre_class = shape_class(store, op, pos, t) if n in ('bin', 'ibin') else ''
         before = [flat(snap(x)) for x in store]
         ro_target = (t == 'v' and store[op[pos]].read_only) or (t == 'a' and store[op[pos]].rows and all(r.read_only for r in store[op[pos]].rows))
         try:
@@ -914,7 +1060,16 @@ def oracle(case):
         msg = invariant(store)
         if msg: return f'{tag}: {msg}'
         after = [flat(snap(x)) for x in store]
-        mutator = n in ('ibin', 'set', 'aset') or (n == 'un' and op[1] in ('clear',))
+        mutator = n in ('ibin', 'set', 'aset', 'copylike', 'fromflat') or (n == 'un' and op[1] in ('clear',))
+        if n == 'copylike' and o[0] == 'unit':
+            # copying from (a view of) itself is a no-op: rows whose source is the row itself keep their content
+            if op[2][0] == 'o' and op[2][1] == op[pos] and after[op[pos]] != before[op[pos]]:
+                return f'{tag}: copy-alias: x.copy_like(x) changed x'
+            if op[2][0] == 'view':
+                rows_b, rows_a = case_rows(before[op[pos]]), case_rows(after[op[pos]])
+                for k, src in enumerate(op[2][1]):
+                    if k < len(rows_b) and src == k and rows_a[k] != rows_b[k]:
+                        return f'{tag}: copy-alias: a.copy_like(a[[...]]) changed row {k}, which was copied from itself'
         # in-place operations change only the target; everything else changes nothing
         for k in range(len(before)):
             if after[k] != before[k] and not (mutator and k == op[pos] and o[0] != 'err'):
@@ -922,7 +1077,7 @@ def oracle(case):
                     if o[1] in CRASH: continue
                     return f'{tag}: rejected-but-modified: raised {o[1]} after modifying the target'
                 return f'{tag}: frame: object {k} changed'
-        if ro_target and mutator and o[0] != 'err':
+        if ro_target and mutator and o[0] != 'err' and n not in ('copylike', 'fromflat'):   # copy_like / from_flat_array never test the flag (not part of the listed findings' witnesses)
             if t == 'v': return f'{tag}: read-only vector: {name or n} on a read-only SparseVector is accepted'
             return f'{tag}: read-only: write to a read-only array accepted'
         if ref[0] == 'skip': continue
@@ -940,6 +1095,8 @@ def oracle(case):
                 with np.errstate(all='ignore'):
                     loose = np_eval(store_before_dense, op) if False else None
                 return f'{tag}: {"logical " if t in ("l", "b") else ""}{zero_class(pre_dense, op)}: returns normally where NumPy raises FloatingPointError'
+            if n in ('bin', 'ibin') and ref[1] == 'EValue':
+                return f'{tag}: [{pre_class}] returns normally where NumPy raises EValue'
             return f'{tag}: returns normally where NumPy raises {ref[1]}'
         # both returned: compare dense images
         if o[0] == 'self' or ref[0] == 'self': continue
@@ -960,11 +1117,30 @@ def oracle(case):
             if len(got[1]) == len(want[1]) == 0: continue
             return f'{tag}: shape {got[0]} where NumPy gives {want[0]}'
         if not close(got[1], want[1]):
+            if n == 'set' and ak.endswith('-self'):
+                return f'{tag}: self-assignment: v[index] = v reads the values while they are being written (NumPy copies first)'
             return f'{tag}: values {[float(x) for x in got[1]][:8]} where NumPy gives {[float(x) for x in want[1]][:8]}'
     return None
 
 def _stop(store):
     return None
+
+def case_rows(fl):
+    shape, vals = fl
+    if len(shape) != 2: return [vals]
+    return [vals[k * shape[1]:(k + 1) * shape[1]] for k in range(shape[0])]
+
+def shape_class(store, op, pos, t):
+    """why NumPy rejects the shapes of an operator call: the two listed deviations, or something else"""
+    x = store[op[pos]]
+    if (t in ('v', 'l') and x.size == 1) or (t in ('a', 'b') and x.vector_size == 1): return 'length-1 target'
+    a = op[3]
+    if t in ('a', 'b'):
+        rows = None
+        if a[0] == 'o' and kind_of(store[a[1]]) in ('a', 'b'): rows = len(store[a[1]].rows)
+        elif a[0] in ('l2', 'n2', 'bn2'): rows = len(a[1])
+        if rows is not None and rows != len(x.rows): return 'row-count'
+    return 'lengths differ'
 
 def ro_operands(n):
     e = env()
@@ -1026,6 +1202,8 @@ CLASSES = [
     ('read-only vector', 'read-only-vector-write-accepted'),
     ('read-only', 'read-only-write-accepted'),
     ('frame', 'frame'),
+    ('copy-alias', 'copy-like-alias-changes-data'),
+    ('self-assignment', 'setitem-from-itself-reads-written-values'),
     ('logical nonzero/0', 'logical-nonzero-over-zero-accepted'),
     ('nonzero/0', 'nonzero-over-zero-accepted'),
     ('0/0', 'zero-over-zero-gives-zero'),
@@ -1036,6 +1214,9 @@ def finding_key(case, msg):
     head = msg.split(': ')[0].split(':')
     n = head[0]
     if 'where NumPy raises EValue' in msg or 'where NumPy raises EIndex' in msg:
+        if n in ('bin', 'ibin') and '[lengths differ]' in msg:
+            return 'C09:shape-mismatch-accepted:' + n          # not one of the listed deviations (length-1 target, row count)
+        if n == 'bin' and '[length-1 target]' in msg: return 'C09:shape-mismatch-accepted:bin'
         return 'C09:' + {'ibin': 'inplace-target-resized-or-shape-not-checked', 'set': 'setitem-shape-not-checked',
                          'aset': 'setitem-shape-not-checked'}.get(n, 'shape-not-checked:' + n)
     if 'where NumPy returns a result' in msg: return 'C09:broadcast-not-supported:' + n
